@@ -35,11 +35,14 @@ def oracle(ctx, deep):
         if a is None:
             continue
         order, titles, rest = wlgen.parse_pre(a)
+        line = wlgen.wlgen_line(c["list"], c["length"], c["sep"], c["cap"], c["budget"], c["words"])
+        base = {"case": c["meta"], "line": line, "observed": a}
+        if "RETURNED-PASSWORD-CHANGED-BY-A-LATER-CALL" in a:
+            ctx.violations.append(dict(base, finding_key="C05-held", what="a password returned earlier no longer has its tokens after a later Generate call on the same recipe (the returned value is not the caller's own)"))
+            continue
         d = chargen.parse_password(rest)
         if d is None or d["outcome"] != "ok":
             continue
-        line = wlgen.wlgen_line(c["list"], c["length"], c["sep"], c["cap"], c["budget"], c["words"])
-        base = {"case": c["meta"], "line": line, "observed": a}
         L = c["length"]
         words = [core.unhx(x) for x in order.split(",")[1:]] if order and order != "0" else []
         tmap = title_map(titles)
